@@ -28,6 +28,7 @@ type env struct {
 	opts   *syntax.FileOptions
 
 	matrixSamples int
+	x4            *ext4State // round-4 families (ext4.go)
 }
 
 func (e *env) other(fs *fileSchema) *fileSchema {
